@@ -32,6 +32,7 @@ GlueSites == <<
   <<"a = f[", "[[k]] ]">>, <<"a = f[", "[==[k]==] ]">>, <<"a = {[", "[[k]] ] = 1}">>, <<"f[", "[[k]] ] = 1">>, <<"f[", "[[k]] ] += 1">>,
   <<"a = f[ [[k]]", "]">>, <<"a = f[ f[1]", "]">>, <<"a = f[ [[k]]", "] ]]">>,
   <<"a = a -", "-a">>, <<"a = a -", "- -a">>, <<"a = -", "-a">>, <<"a = a -", "-1">>,
+  <<"a = 0xA", ".. a">>, <<"a = 1_", ".. a">>, <<"a = 0xf", ".. 2">>, <<"a = 0B1_", "..a">>, <<"f(0xA,", "...)">>,      \* numbers that end with a letter / an underscore
   <<"a = a ..", ".5">>, <<"a = 1", ".. 2">>, <<"a = 1 ..", "2">>, <<"f(a ..", "...)">>, <<"a = a.", "b">>, <<"a = 1", ".b">>,
   <<"a = a <", "= a">>, <<"a = a >", "= a">>, <<"a = a =", "= a">>, <<"a = a ~", "= a">>, <<"a = a /", "/ a">>, <<"a ..", "= 'x'">>,
   <<"a = f", "[[x]]">>, <<"a = f", "'x'">>, <<"a = f", "{}">>, <<"a = a and", "a">>, <<"a = not", "a">>, <<"a = 1", "or a">>, <<"a = 0x1", "e">>,
